@@ -1,6 +1,8 @@
 (* C06 driver: for `cyc` cases, Lee's canonical chains are built on the cube complex (the definition)
-   and checked to be cycles; the other case kinds are relations evaluated on the implementation's
-   values by the check module (the model echoes REL). *)
+   and checked to be cycles; for `sso` cases the definition-level oracle `ss_spec` (Model/KhSs.v: cube
+   complex around degree 0, homology coordinates from the verified homology calculator, divisibility of
+   Lee's class) gives the value of the s-type invariant; the other case kinds are relations evaluated on
+   the implementation's values by the check module (the model echoes REL). *)
 (*INCLUDE kh_common.ml*)
 let handle (line : string) : string =
   match String.split_on_char ';' line with
@@ -19,6 +21,16 @@ let handle (line : string) : string =
                 Printf.sprintf "h=%d r=%d n=%d cyc=%d nz=%d" h (if red then 1 else 0) (int_of_nat n)
                   (if cyc then 1 else 0) (if nz then 1 else 0)) [false; true]) [0; 1; 2; 3] in
         String.concat " ; " segs
+     | ["sso"; c; red; bound] ->
+        let l = parse_link ls in
+        let red = (red = "1") in
+        (match ss_dims l red with
+         | None -> "NONE"
+         | Some ((a, b), d) ->
+            if max (int_of_nat a) (max (int_of_nat b) (int_of_nat d)) > int_of_string bound then "SKIP" else
+            (match ss_spec l (z_of_string c) red with
+             | None -> "NONE"
+             | Some v -> string_of_z v))
      | _ -> "REL")
   | _ -> failwith "bad case"
 
